@@ -132,7 +132,8 @@ pub fn run_sync_case(case: &SyncCase, ctx: &RunCtx, full_query: bool) -> SyncRes
         // per peer: set of tombstoned ids already applied -> to detect "pull from stale peer after deletion"
         let mut stale_pull = false;
         let mut seen_res: BTreeSet<String> = BTreeSet::new();
-        w.single_entity = case.mode == 0;
+        // (mode 0 used a single entity per room while the room summary ignored the other entities: repaired)
+        w.single_entity = false;
         w.ordered_reference_changes = case.mode == 0;
         w.no_double_delete = case.mode <= 1;
         r.labels.push(format!("mode:{}", case.mode));
@@ -276,6 +277,16 @@ pub fn run_sync_case(case: &SyncCase, ctx: &RunCtx, full_query: bool) -> SyncRes
                 let nd: Vec<String> = c.node_dels.iter().map(|d| format!("{}v{}d{}k{}", short(&d.id), d.mdate % 100000000, d.deletion_date % 100000000, short(&d.key))).collect();
                 println!("   {}: N{:?} ND{:?} E{}", w.peers[i].name, nodes, nd, c.edges.len());
             }
+            for p in &w.peers {
+                let snap = p.snapshot().await;
+                let short = |x: &str| x.chars().skip(2).take(5).collect::<String>();
+                let l: Vec<String> = snap
+                    .log
+                    .iter()
+                    .map(|l| format!("r{}e{}d{}n{}h{}H{}{}", short(&l.room), l.entity, l.date / 86_400_000 - 19000, l.entry_number, l.daily_hash.as_deref().map(|h| short(h)).unwrap_or("-".into()), l.history_hash.as_deref().map(|h| short(h)).unwrap_or("-".into()), if l.need_recompute.unwrap_or(0) != 0 { "!" } else { "" }))
+                    .collect();
+                println!("   {}: L{:?}", p.name, l);
+            }
         }
         // C11 at quiescence, and resurrection classification for C03
         let mut tomb_rooms: BTreeMap<String, BTreeSet<String>> = BTreeMap::new();
@@ -355,11 +366,9 @@ pub fn run_sync_case(case: &SyncCase, ctx: &RunCtx, full_query: bool) -> SyncRes
                     let mut causes: BTreeMap<String, String> = BTreeMap::new();
                     let blind_name = |room: &str, kind: &str| -> String {
                         if logs_equal.get(room).copied().unwrap_or(false) {
-                            if case.mode == 0 {
-                                format!("{}:room-logs-equal", kind)
-                            } else {
-                                "room-log-summary-blind-to-other-entities".to_string()
-                            }
+                            // (in two-entity rooms this used to be the known finding
+                            // room-log-summary-blind-to-other-entities, repaired by c935e39)
+                            format!("{}:room-logs-equal", kind)
                         } else {
                             kind.to_string()
                         }
